@@ -177,9 +177,10 @@ func (h *HTTP) request(ctx *gin.Context) {
 	//       on the redirector setup
 
 	for _, Header := range h.Config.Response.Headers {
-		var hdr = strings.Split(Header, ":")
+		// "Name: value" — cut at the first colon only, the value may contain colons itself
+		var hdr = strings.SplitN(Header, ":", 2)
 		if len(hdr) > 1 {
-			ctx.Header(hdr[0], hdr[1])
+			ctx.Header(strings.TrimSpace(hdr[0]), strings.TrimSpace(hdr[1]))
 		}
 	}
 
